@@ -39,6 +39,11 @@ impl<'a> TreeGen<'a> {
         let name = ENAMES[self.rng.gen_range(0..ENAMES.len())];
         self.nodes.push(node("elem", parent, name, ""));
         let me = self.nodes.len();
+        if self.rng.gen_range(0..6) == 0 {
+            let v = ["en", "en-US", "fr", "EN-gb"][self.rng.gen_range(0..4)];
+            self.nodes.push(json!({"k": "attr", "p": me, "pre": cp("xml"), "loc": cp("lang"),
+                                   "uri": cp("http://www.w3.org/XML/1998/namespace"), "v": cp(v), "raw": []}));
+        }
         for a in ANAMES.iter() {
             if self.rng.gen_range(0..4) == 0 {
                 let v = TEXTS[self.rng.gen_range(0..5)];
@@ -376,6 +381,7 @@ impl<'a> ExprGen<'a> {
                 bin(op, self.any_expr(depth - 1), self.any_expr(depth - 1))
             }
             4 => func("not", vec![self.any_expr(depth - 1)]),
+            5 if !self.scalar && self.rng.gen_bool(0.5) => func("lang", vec![lit(self.pick(&["en", "fr", "EN", "en-us", "e"]))]),
             5 => func("boolean", vec![self.any_expr(depth - 1)]),
             6 => bin(self.pick(&["and", "or"]), self.bool_expr(depth - 1), self.bool_expr(depth - 1)),
             7 => {
